@@ -404,6 +404,29 @@ def alma_params(F, R):
                 if a != centre_arg and any(x == op('div', wl, a) for x in subterms(t)):
                     ok_s = True
     R.ob('B2-alma', 'Alma:centre', ok_m, 'centre = offset·(N+1)' if ok_m else 'centre is not offset·(N+1)', v.file)
+    # constructors without float arguments (the defaults) must be the parametrised constructor at constant arguments: every
+    # parameter cell of the former equals the latter's with literals substituted for offset and sigma
+    import itertools
+    from .terms import map_term
+    customs = [mm for mm in m.ctor_models if mm['init'] is not None and len([1 for (pid, nm, ty) in mm['fn'].param_ids() if ty == 'T' and nm]) >= 2]
+    for mm in m.ctor_models:
+        if mm['init'] is None or not mm['fn'].vis.startswith('Public'):
+            continue
+        if [1 for (pid, nm, ty) in mm['fn'].param_ids() if ty == 'T' and nm] or not customs:
+            continue
+        cu = customs[0]
+        fargs = [('arg', nm) for (pid, nm, ty) in cu['fn'].param_ids() if ty == 'T' and nm]
+        lits_ = sorted({x for t in mm['init'].values() if isinstance(t, tuple) for x in subterms(t) if x[0] == 'lit' and len(x) > 2 and x[2] == 'f'}, key=repr)
+        cells = [c for c in cu['init'] if c not in m.touched and isinstance(cu['init'][c], tuple) and any(x in fargs for x in subterms(cu['init'][c]))]
+        ok_def = False
+        for combo in itertools.permutations(lits_, len(fargs)) if len(lits_) >= len(fargs) and len(lits_) <= 6 else []:
+            sub = dict(zip(fargs, combo))
+            if all(map_term(cu['init'][c], lambda x, sub=sub: sub.get(x, x)) == mm['init'].get(c) for c in cells):
+                ok_def = True
+                break
+        R.ob('B2-alma', 'Alma:defaults:%s' % mm['fn'].name, ok_def and bool(cells),
+             '%s() is %s() at constant arguments: same centre and width expressions' % (mm['fn'].name, cu['fn'].name) if ok_def and cells else
+             'the parameter cells set by %s() are not those of %s() at constant offset/sigma: the default kernel is not centred at offset·(N+1) with width N/sigma' % (mm['fn'].name, cu['fn'].name), v.file)
     R.ob('B2-alma', 'Alma:width', ok_s, 'width = N/sigma' if ok_s else 'width is not N/sigma', v.file)
     # every weight pushed/added is exp(...) (positive)
     fl = flow(F, v)
